@@ -138,6 +138,8 @@ def classify_cut(text: str, chunks: typing.Sequence[str]) -> str:
 # ---------------------------------------------------------------- worker
 def _work(job: typing.Tuple[typing.List[str], bool, bool, str]) -> dict:
     texts, with_empty, do_copy, scratch = job
+    copy_only = scratch.endswith("#copyonly")
+    scratch = scratch.split("#")[0]
     bag = Bag()
     evals = 0
     outcomes = set()
@@ -159,7 +161,7 @@ def _work(job: typing.Tuple[typing.List[str], bool, bool, str]) -> dict:
                     {"mode": "chunks", "text": text, "chunks": [text], "pps": name},
                     f"one-chunk output {whole!r} != line-by-line reference {ref!r} for text {text!r} [{name}]",
                 )
-            for chunks in schedules(text, with_empty):
+            for chunks in ([] if copy_only else schedules(text, with_empty)):
                 if len(chunks) == 1 and chunks[0] == text:
                     continue
                 got = run_impl(chunks, spec)
@@ -182,7 +184,7 @@ def _work(job: typing.Tuple[typing.List[str], bool, bool, str]) -> dict:
                     bag.add(
                         {"kind": "copy_header_mismatch", "pps": name, "feature": feat},
                         {"mode": "copy", "text": text, "pps": name},
-                        f"support-file copy of {text!r} gives {got!r}, reference {ref!r} [{name}]",
+                        f"support-file copy of {text[:40]!r}{'...' if len(text) > 40 else ''} (len {len(text)}) gives {got[-24:]!r}, reference {ref[-24:]!r} [{name}]",
                     )
     return {"evals": evals, "bag": bag, "outcomes": outcomes, "nontrivial": nontrivial, "texts": len(texts)}
 
@@ -211,6 +213,12 @@ def run(ctx: Ctx) -> int:
 
     shard(core + uni, True, True, 120)
     shard(ext, False, False, 400)
+    # the support-file copy reads the resource in blocks: put a CRLF / whitespace run at every position around the block size
+    import io as _io
+
+    bs = _io.DEFAULT_BUFFER_SIZE
+    big = ["a" * pos + tail for pos in range(bs - 4, bs + 3) for tail in ("\r\n", " \r\nb", "\r\n\r\n\r\nb", "\r", " \t\r\n\n\n\nb ")]
+    jobs.append((big, False, True, str(ctx.scratch) + "#copyonly"))
     results = ctx.pool_map(_work, jobs)
     evals = sum(r["evals"] for r in results)
     outcomes = set()
